@@ -81,6 +81,8 @@ def op_sig(op):
         return f"tree[{op['type']},{op.get('coords')},{op.get('csys')},{op.get('metric')},reconstruct={op.get('reconstruct', False)}]"
     if n == "isel":
         return f"isel[{op['dim']}]"
+    if n == "isel_attr":
+        return f"isel[{op['dim']}].{op['name']}"
     if n in ("bbox", "bcircle", "knn"):
         return f"{n}[{op.get('element')}]"
     return n
@@ -158,6 +160,11 @@ def menu(sid):
         {"op": "isel", "dim": "n_edge", "idx": [0, 5]},
         {"op": "isel", "dim": "n_edge", "idx": [2], "scalar": True},
     ]
+    sa = []
+    for dim, idx in (("n_face", [3, 0, 1, 2]), ("n_node", [5, 1]), ("n_edge", [0, 4, 2])):
+        for a in ("edge_face_distances", "edge_node_distances", "face_areas", "n_edge", "face_edge_connectivity", "antimeridian_face_indices", "hole_edge_indices", "face_lon", "edge_x"):
+            sa.append({"op": "isel_attr", "dim": dim, "idx": idx, "name": a})
+    m["isel_attr"] = sa
     s = []
     for el in ("nodes", "face centers", "edge centers"):
         for lon, lat in geo["boxes"][:2]:
@@ -178,8 +185,8 @@ def menu(sid):
     return m
 
 
-CLASSES = ["attr", "fail_attr", "introspect", "areas", "encode", "gdf", "polyc", "linec", "tree", "chunk", "isel", "subset", "xsec", "misc", "eq"]
-CLASS_WEIGHT = {"attr": 6, "fail_attr": 1, "introspect": 2, "areas": 2, "encode": 3, "gdf": 3, "polyc": 3, "linec": 2, "tree": 4, "chunk": 1, "isel": 2, "subset": 2, "xsec": 2, "misc": 1, "eq": 1}
+CLASSES = ["attr", "fail_attr", "introspect", "areas", "encode", "gdf", "polyc", "linec", "tree", "chunk", "isel", "isel_attr", "subset", "xsec", "misc", "eq"]
+CLASS_WEIGHT = {"attr": 6, "fail_attr": 1, "introspect": 2, "areas": 2, "encode": 3, "gdf": 3, "polyc": 3, "linec": 2, "tree": 4, "chunk": 1, "isel": 2, "isel_attr": 2, "subset": 2, "xsec": 2, "misc": 1, "eq": 1}
 
 
 class History(Profile):
